@@ -71,6 +71,7 @@ def conversions_ok(piece, tyname, target, funcs, methods):
         sig = funcs.get(piece[1])
         if sig is None: return False, 'call of %s, which is not a builtin function' % piece[1]
         if sig[0] != [tyname] or sig[1] != 'string': return False, 'call of %s%s -> %s' % (piece[1], tuple(sig[0]), sig[1])
+        if target == 'ToJson' and tyname == 'unit': return False, 'call of %s on a unit member (the runtime prints `()`, which is not a JSON value; a unit member is the literal null)' % piece[1]
         if target == 'ToJson' and tyname == 'string' and piece[1] != 'json_escape_string': return False, 'a string member that is not escaped (%s)' % piece[1]
         if target == 'ToJson' and tyname == 'bool' and piece[1] not in ('bool_to_json', 'bool_to_string'): return False, 'a bool member printed with %s' % piece[1]
         return True, 'call of ' + piece[1]
@@ -143,6 +144,10 @@ def replay(kind, target, names, tynames, payloads, key):
         stages = re.findall(r'error \((\w+)\)', out)
         ok_ = bool(stages) and all(s_ != 'derive' for s_ in stages)
         return ok_, 'goml `%s`: %s' % (show, ('rejected after derive: ' + out.strip().split('\n')[0][:160]) if ok_ else 'accepted or rejected by derive itself: ' + out.strip()[:120])
+    if key == 'conversion-not-json':
+        body = native_pieces(out, meth)
+        ok_ = body is not None and 'unit_to_string(' in body
+        return ok_, 'goml `%s`: the generated %s %s' % (show, meth, ('prints the unit member with unit_to_string: ' + ' '.join(body.split())[:200]) if ok_ else 'does not call unit_to_string')
     body = native_pieces(out, meth)
     if body is None: return False, 'goml `%s`: no generated method in --dump-ast: %s' % (show, out.strip()[:160])
     if kind == 'struct':
@@ -339,7 +344,9 @@ def ob_derive(r, tier, seed, kind, target, nfields, name_sets, ty_allowed=None, 
                         continue
                     tn = list(default_t); tn[fi] = SCALARS[cons]
                     ok_, how = conversions_ok(c_, SCALARS[cons], target, funcs, methods)
-                    if not ok_:
+                    if not ok_ and 'not a JSON value' in how:
+                        add('conversion-not-json', 'derive(%s): a member of type %s is converted by %s' % (target, SCALARS[cons], how), {'type': SCALARS[cons], 'conversion': list(c_[:2])}, rp_with(tn))
+                    elif not ok_:
                         add('conversion-missing', 'derive(%s): a member of type %s is converted by %s' % (target, SCALARS[cons], how), {'type': SCALARS[cons], 'conversion': list(c_[:2])}, rp_with(tn))
             if k == 'struct' and sorted(i for i in idxs if i is not None) != [i for i in range(n_m) if not (target == 'ToJson' and fdoms[i] == ['TUnit'])] and sorted(i for i in idxs if i is not None) != list(range(n_m)):
                 add('wrong-member', 'the members convert the fields %s, expected each of %d fields once in order' % (idxs, n_m), {'fields': idxs}, rp_with(default_t))
